@@ -4,20 +4,25 @@
     states and produces the same successors for every argument tuple as the original."
    Statements only; proofs in Proofs/C18_*.v.
 
-   Model.ChangeSignature.change_signature is the model of Action.change_signature after the repair D23.
+   Model.ChangeSignature.change_signature is the renaming as repaired by D23 (e740ca9); since eb5fde6 (repair of the
+   quantified-variable half of D75) the code additionally renames a quantified variable out of the way when a new name
+   equals it: the model of the code is Model.ChangeSignatureAlpha.change_signature_a, which returns exactly
+   change_signature's result under the side condition below (C18_alpha_step_inactive, C18_repaired_model) - so the
+   theorems, stated for change_signature, are theorems about the code on the fragment they cover.
    The side condition [renaming_ok dom a m] (Proofs/C18_Check.v, a boolean) reads: the action is well formed (no
    repeated argument in a literal, operators at the root of numeric conditions - what the parser guarantees), the
    mapping m is injective on the parameters and on every other name the action mentions, and a name it moves is
    not a constant and does not land on a constant or on a quantified variable of the action.  Fresh names,
    permutations of the parameter names and chains ?a->?b->?c->fresh satisfy it (Examples below); the Examples
-   C18_*_needed show that none of its clauses can be dropped. *)
+   C18_*_needed show that none of its clauses can be dropped FOR change_signature (for the code, landing on a
+   quantified variable has become harmless: C18_capture_repaired; landing on a constant has not: C18_refuted). *)
 From Coq Require Import List String Bool PrimFloat.
 From Verif Require Import Base.Result Base.PyDict Model.Domain Model.Exec Model.ChangeSignature
   Spec.Pddl Spec.Rename
   Base.Sexp Model.Types
   Proofs.C18_Dict Proofs.C18_Alpha Proofs.C18_Denote Proofs.C18_Exec Proofs.C18_Check Proofs.C18_Parser Proofs.C18_Legacy
   Proofs.C18_Main Proofs.C18_Seq Proofs.C18_ParsedDomain
-  Model.ChangeSignatureAlpha Proofs.C18_AlphaStep.
+  Model.ChangeSignatureAlpha Proofs.C18_AlphaStep Proofs.C18_Repaired.
 Import ListNotations.
 Open Scope string_scope.
 Open Scope list_scope.
@@ -199,37 +204,86 @@ Example C18_no_constant_needed :
   ex_run (change_signature [("?z", "c0")] ex_act) <> ex_run ex_act.
 Proof. exact constant_changes_behaviour. Qed.
 
-(* ---- the property read literally: ANY mapping that moves parameters only and is injective on them.  It is false of
-        the code (recorded finding D75: nothing compares the new names with the action's quantified variables and
-        constants); C18_rename above is the partial theorem on the largest fragment where it holds - the side
-        condition renaming_ok adds exactly "a moved name is not a constant and does not land on a constant, on a
-        quantified variable or on another name the action mentions" - and this is the refutation (witness: ?z -> ?u in
-        an action with (forall (?u - t0) (or (p ?u ?z) (q ?u))), evaluated by vm_compute) ---- *)
+(* ================================================================================================== *)
+(* The code as it is since /repo eb5fde6 (repair of the quantified-variable half of finding D75)          *)
+(* ================================================================================================== *)
+(* Since eb5fde6 a quantifier of the action renames its own variable to a fresh name (?u_0, ?u_1, ...) when a new
+   parameter name equals it.  The model of Action.change_signature is Model.ChangeSignatureAlpha.change_signature_a
+   (fuelled: Err EFuel beyond nesting depth alpha_fuel = 200); Model.ChangeSignature.change_signature, about which the
+   theorems above speak, is the same renaming without that step.  ---- Wherever no entry of the mapping lands on a
+   quantified variable of the action - in particular under the side condition of C18_rename, for a dict (distinct keys)
+   whose moved keys are names of the action - the code's model returns, and returns exactly what change_signature
+   returns: every theorem above is a theorem about the code on the fragment it covers ---- *)
+Theorem C18_alpha_step_inactive (dom : mdomain) (a a' : maction) (m : renaming) :
+  renaming_ok dom a m = true -> NoDup (dkeys m) ->
+  (forall k x, In (k, x) m -> k <> x -> In k (names_action a)) ->
+  change_signature_a m a = Ok a' -> a' = change_signature m a.
+Proof. exact (change_signature_a_ok dom a a' m). Qed.
+
+Theorem C18_repaired_model (dom : mdomain) (a : maction) (m : renaming) :
+  renaming_ok dom a m = true -> NoDup (dkeys m) ->
+  (forall k x, In (k, x) m -> k <> x -> In k (names_action a)) ->
+  depth_action a <= alpha_fuel ->
+  change_signature_a m a = Ok (change_signature m a).
+Proof. exact (change_signature_a_total dom a m). Qed.
+
+(* ---- the property read literally, for the code's model: ANY mapping that moves parameters only and is injective on
+        them.  It is still false of the code (recorded finding D75, now its constant half only: nothing compares the new
+        names with the constants of the domain - an Action does not know them); C18_rename_partial is the partial theorem
+        on the largest fragment proved - the side condition renaming_ok adds "a moved name is not a constant and does
+        not land on a constant, on a quantified variable or on another name the action mentions" - and C18_refuted the
+        refutation (witness: ?z -> c0, a constant of the domain; evaluated by vm_compute).  Mappings that land on a
+        quantified variable are outside renaming_ok but no longer refute anything: the code now makes room for them
+        (Example C18_capture_repaired; tied to /repo by the correspondence, where they are judged like every
+        admissible mapping) ---- *)
 Definition C18_full_statement : Prop :=
+  forall (dom : mdomain) (a a' : maction) (m : renaming),
+    well_formed a = true ->
+    (forall n, ~ In n (dkeys (ma_sig a)) -> rn m n = n) ->
+    (forall x y, In x (dkeys (ma_sig a)) -> In y (dkeys (ma_sig a)) -> rn m x = rn m y -> x = y) ->
+    change_signature_a m a = Ok a' ->
+    same_behaviour dom a a'.
+
+Theorem C18_rename_partial (dom : mdomain) (m : renaming) (a : maction) :
+  renaming_ok dom a m = true -> NoDup (dkeys m) ->
+  (forall k x, In (k, x) m -> k <> x -> In k (names_action a)) ->
+  depth_action a <= alpha_fuel ->
+  exists a', change_signature_a m a = Ok a' /\
+    ma_sig a' = map (rn_item m) (ma_sig a) /\
+    denote_action a' = option_map (ren_action (rn m)) (denote_action a) /\
+    same_behaviour dom a a'.
+Proof. exact (rename_repaired_correct dom m a). Qed.
+
+Theorem C18_refuted : ~ C18_full_statement.
+Proof. exact full_statement_a_refuted. Qed.
+
+(* the witness of the finding as it was recorded before eb5fde6 (?z -> ?u, the variable of
+   (forall (?u - t0) (or (p ?u ?z) (q ?u)))): the quantified variable moves to ?u_0 and the renamed action behaves as the
+   original, also in the state where the unrepaired renaming differs (C18_no_capture_needed) *)
+Example C18_capture_repaired :
+  exists a', change_signature_a [("?z", "?u")] ex_act = Ok a' /\
+    In (MUniv "?u_0" "t0" (MPre "or" [MLit true "p" ["?u_0"; "?u"]; MLit true "q" ["?u_0"]] [] []))
+       (match ma_pre a' with MPre _ os _ _ => os end) /\
+    ex_run a' = ex_run ex_act /\
+    (do ga <- ground_action ex_dom a' ["o0"; "o1"; "o2"]; is_applicable ex_dom ex_eps (Some ex_objs) ga ex_state_cc) =
+    (do ga <- ground_action ex_dom ex_act ["o0"; "o1"; "o2"]; is_applicable ex_dom ex_eps (Some ex_objs) ga ex_state_cc).
+Proof. exact capture_repaired. Qed.
+
+(* ---- the code before eb5fde6 (Model.ChangeSignature.change_signature is its model): the literal reading was refuted
+        by a quantified variable as well (witness ?z -> ?u; finding D75b, fixed) ---- *)
+Definition C18_before_D75b_full_statement : Prop :=
   forall (dom : mdomain) (a : maction) (m : renaming),
     well_formed a = true ->
     (forall n, ~ In n (dkeys (ma_sig a)) -> rn m n = n) ->
     (forall x y, In x (dkeys (ma_sig a)) -> In y (dkeys (ma_sig a)) -> rn m x = rn m y -> x = y) ->
     same_behaviour dom a (change_signature m a).
 
-Theorem C18_rename_partial (dom : mdomain) (m : renaming) (a : maction) :
+Theorem C18_before_D75b_partial (dom : mdomain) (m : renaming) (a : maction) :
   renaming_ok dom a m = true -> same_behaviour dom a (change_signature m a).
 Proof. exact (rename_same_behaviour dom a m). Qed.
 
-Theorem C18_refuted : ~ C18_full_statement.
+Theorem C18_before_D75b_refuted : ~ C18_before_D75b_full_statement.
 Proof. exact full_statement_refuted. Qed.
-
-(* ---- the PROPOSED repair of the quantified-variable half of D75 (proposed_fixes/D75b.diff, not in /repo; its model is
-        Model.ChangeSignatureAlpha, used by Corr.C18 only when Corr.C18Flag.d75b_patched is set): a quantifier renames its
-        own variable to a fresh name when a new name equals it.  Wherever no entry of the mapping lands on a quantified
-        variable of the action - in particular under the side condition of C18_rename, for a dict whose moved keys are
-        names of the action - that model returns exactly what change_signature returns, so every theorem above carries
-        over to the repaired code on the fragment it covers ---- *)
-Theorem C18_alpha_step_inactive (dom : mdomain) (a a' : maction) (m : renaming) :
-  renaming_ok dom a m = true -> NoDup (dkeys m) ->
-  (forall k x, In (k, x) m -> k <> x -> In k (names_action a)) ->
-  change_signature_a m a = Ok a' -> a' = change_signature m a.
-Proof. exact (change_signature_a_ok dom a a' m). Qed.
 
 (* ---- what the repair changed (model of the code before D23, Model.ChangeSignature.legacy_change_signature) ---- *)
 (* the old in-place loop was right exactly where the repository's tests used it: every key to a fresh name *)
@@ -268,5 +322,8 @@ Print Assumptions C18_roundtrip.
 Print Assumptions C18_rename_partial.
 Print Assumptions C18_refuted.
 Print Assumptions C18_alpha_step_inactive.
+Print Assumptions C18_repaired_model.
+Print Assumptions C18_before_D75b_partial.
+Print Assumptions C18_before_D75b_refuted.
 Print Assumptions C18_legacy_partial.
 Print Assumptions C18_legacy_refuted.
